@@ -289,6 +289,13 @@ def run(tier: str, seed: int) -> CheckResult:
             for sp in ((6.0,) if tier == 'quick' else (6.0, 0.0))]
     hist += [build(h, bare, 6.0, False, filtered_resume_only=True, delays=False, early_user=False, time_dev=False)
              for bare in (True, False) for h in histories(depth, bare) if ('restart',) in h and ('label', 'a', 'l', 'v') in h]
+    # an object first seen through the watch although it was handled before, then re-listings / reconnects / edits
+    for tail in ([('relist',)], [('reconnect',)], [('relist',), ('label', 'a', 'l', 'v')], [('status', 'a', 7), ('relist',), ('status', 'a', 8)],
+                 [('relist',), ('relist',)], [('label', 'a', 'l', 'v'), ('relist',)]):
+        sc = build(tail, False, 6.0, False, delays=False, early_user=False, time_dev=False)
+        params = dict(sc.params)
+        params['user'] = [(1.0, 'createhandled', 'a')] + [u for u in params['user'] if u[1] != 'create']
+        hist.append(C05Scenario(**params))
     timing = [build(h, bare, 2.0, pre, kills=True) for bare in (True, False) for pre in (False, True) for h in histories(1 if tier == 'quick' else 2, bare)]
     if tier == 'quick':
         groups = [('histories', hist, 0, 60.0), ('timing+kills', timing, 1, 40.0)]
